@@ -302,3 +302,28 @@ MANIFEST_TEXT["C13"] = {
     "technique": "property-based state generation (rapid) + exhaustive fault injection (reader chunkings, truncation points, failing sinks); round-trip, model-based and differential oracles",
 }
 NOT_APPLICABLE[:] = [e for e in NOT_APPLICABLE if e["property_id"] not in CHECKS]
+
+CHECKS["C14"] = {
+    "test": "TestC14",
+    "quick": {"shards": 8, "checks": 2500},
+    "thorough": {"shards": 16, "checks": 12000},
+    "rule": "a rapid-generated step sequence (block / Verify(remember) / Prune / Undo) brings the reference model and a partial MapPollard (generated TotalRows) to a "
+            "state; target set A is drawn as in C02 and B with a forced relation to A (free / overlapping / sibling leaves / cousins / other trees / superset / same / "
+            "disjoint), both with targets and hashes in a drawn parallel order. Checked against the model: AddProof(A,B) returns the union (each target once, hashes "
+            "parallel) with the canonical proof of the union, accepted by Verify; GetProofSubset(A, wants) for a drawn sub-list of A in a drawn order returns exactly "
+            "that order, the leaves' hashes and the canonical proof of the subset, and an error iff a wanted position is not a target of A (a foreign live leaf is "
+            "inserted in 1 of 6 cases); GetMissingPositions(N, A, B) equals need(B\\A) minus (A's proof positions, targets and computable positions), ascending, and the "
+            "union proof assembled from A's hashes plus the true hashes at exactly those positions verifies; MapPollard.GetMissingPositions(req) equals the canonical "
+            "proof positions absent from the forest's exported node map (and never a position the forest must store), VerifyPartialProof with exactly those hashes "
+            "succeeds (remember off and on, C09 invariant re-checked) and fails when the last one is withheld. Non-trivial: A and B overlap or some target's sibling "
+            "is also a target, and an input is not position-sorted.",
+    "assumptions": COMMON_ASSUME + ["AddProof's result order is not fixed by the statement: targets are compared as a duplicate-free set with parallel hashes",
+                                    "'stored' for MapPollard.GetMissingPositions is read from the exported Nodes map and bounded by the model (required positions must never be reported)"],
+}
+MANIFEST_TEXT["C14"] = {
+    "level_text": "Exploration: generated states x related target-set pairs x input orders, every result compared with the reference model's canonical proof / position sets and fed back to the verifiers.",
+    "design_ref": "DESIGN.md section 6 C14",
+    "level_note": TRUST,
+    "technique": "property-based testing (rapid), model-based oracle (canonical proof and position algebra) + verify round-trip",
+}
+NOT_APPLICABLE[:] = [e for e in NOT_APPLICABLE if e["property_id"] not in CHECKS]
